@@ -1482,6 +1482,9 @@ class AdapterIndex:
             if length < best_m:
                 # No chance of getting the same or a higher number of matches, so we can stop early
                 break
+            if length > len(sequence):
+                # The read is too short to contain an indexed string of this length
+                continue
             affix = self._make_affix(affix, length)
             if "N" in affix:
                 result = self._lookup_with_n(affix)
